@@ -34,13 +34,14 @@ DH    == E.ev = "drophang"  /\ Step(P!QDropHang(mon, E.h))
 WD    == E.ev = "wdropped"  /\ Step(P!QWDropped(mon))
 SB    == E.ev = "sbegin"    /\ Step(P!QSampleBegin(mon))
 Sm    == E.ev = "sample"    /\ Step(P!QSample(mon, E.s, E.d, E.q, E.p))
+Bk    == E.ev = "bulk"      /\ Step(P!QBulk(mon, E.okn, E.deln))
 Qu    == E.ev = "quiesce"   /\ Step(P!QQuiesce(mon, E.s, E.d, E.q, E.p))
 End   == E.ev = "end"       /\ Step(P!QEnd(mon, E.released, E.exited))
 \* hook points and harness notes carry no obligation for the monitor
 Skip  == E.ev \in {"hook", "note", "abandon", "step"} /\ Step(mon)
 
 Next == l <= Len(Rec) /\ (Reset \/ ECall \/ ERet \/ EPan \/ EHang \/ WEnt \/ WLv \/ EH \/ Cl \/ DB \/ DE \/ DH
-                          \/ WD \/ SB \/ Sm \/ Qu \/ End \/ Skip)
+                          \/ WD \/ SB \/ Sm \/ Bk \/ Qu \/ End \/ Skip)
 Spec == Init /\ [][Next]_vars
 
 Verdict == l = Len(Rec) + 1 =>
